@@ -327,6 +327,14 @@ def apply_degeneracy(d, rng, y, pattern):
         y[..., idx, :] = 0
     elif pattern == 'all-zero':
         y[...] = 0
+    elif pattern == 'zero-slice':
+        # one index of the leading axes is silent (e.g. a DC bin), the others
+        # carry regular data; without leading axes: all zero
+        if lead:
+            idx = tuple(d.int(0, n - 1) for n in lead)
+            y[idx] = 0
+        else:
+            y[...] = 0
     elif pattern == 'duplicates':
         idx = d.subset(N, 1, N)
         src = d.int(0, N - 1)
@@ -443,7 +451,7 @@ def draw_case(d, kinds=None, *, degenerate=False, general_position=False,
     pattern = 'none'
     if degenerate:
         pattern = d.choice(['none', 'none', 'zero-frames', 'all-zero',
-                            'duplicates', 'rank-deficient'])
+                            'duplicates', 'rank-deficient', 'zero-slice'])
         y = apply_degeneracy(d, rng, y, pattern)
     scale_exp = 0
     single = False
@@ -519,7 +527,7 @@ def draw_case(d, kinds=None, *, degenerate=False, general_position=False,
         if kind in ('vmfmm', 'vmfcacgmm'):
             if d.bool():
                 o['min_concentration'] = d.choice([1e-10, 1e-3, 1.0])
-                o['max_concentration'] = d.choice([500, 100, 20])
+                o['max_concentration'] = d.choice([500, 100, 20, 1000, 5000])
         if integ:
             o['spatial_weight'] = d.choice([1.0, 1.0, 0.0, 0.5, 2.0])
             o['spectral_weight'] = d.choice([1.0, 1.0, 0.0, 0.5, 2.0])
